@@ -27,7 +27,12 @@ MODES = {
     "defaults+numbers": ["--no-gitconfig", "--line-numbers", "--width", "100"],
     "sbs-narrow-wrap": ["--no-gitconfig", "--side-by-side", "--width", "50"],
     "navigate+decorations": ["--no-gitconfig", "--navigate", "--width", "90"],
+    # the README's configuration: raw commit line inside a box
+    "commit-box": ["--no-gitconfig", "--commit-decoration-style", "bold yellow box ul", "--width", "100"],
+    # displayed names are rewritten; the links must still point to the files
+    "rs+file-transformation": gitskin.RS_ARGS + ["--file-transformation", "s,Z,Q,"],
 }
+UNTRANSFORM = {nm.replace("Z", "Q", 1): nm for nm in gitskin.FILES.values()}
 _PATH = re.compile(r"^(?:[\w./ -]*/)?(?:alpha|beta|gamma)Z[123]Z\.rs$")
 
 
@@ -92,6 +97,9 @@ def run(tier):
             Lk = lambda c: {"c": c, "f": 0, "g": 0, "kd": ""}
             h = [Lk("commit"), Lk("other"), Lk("other"), Lk("other"), Lk("other")] + [l for l in h]
         data, texts = gitskin.concretise(h, payload=payload, skin={"other_payload": True} if insub == 2 else None)
+        if ct == 1 and insub != 2:
+            # as git hands it to its pager: coloured (transparency must hold for coloured input too)
+            data = "".join(t + "\n" for t in gitskin.colourise(h, texts, 1 + len(h) % 4)).encode()
         extra = ["--hyperlinks", "--hyperlinks-commit-link-format", CTEMPLATES[ct][0]]
         if TEMPLATES[tname][0]:
             extra += ["--hyperlinks-file-link-format", TEMPLATES[tname][0]]
@@ -122,10 +130,16 @@ def run(tier):
                 cells, _ = gitskin.kinded_cells(rb)
                 base = os.path.join(root, "sub dir") if insub == 2 else root     # what displayed paths are relative to
                 hhpath = "".join(g for g, kd, wd, c in cells if kd == "hhFile")
+                if mode == "rs+file-transformation":
+                    for shown, real in UNTRANSFORM.items():
+                        hhpath = hhpath.replace(shown, real)
                 hhline = "".join(g for g, kd, wd, c in cells if kd == "hhLine")
                 lks = []
                 for text, url in link_spans(rb):
                     t = text.strip()
+                    if mode == "rs+file-transformation":      # undo the display transformation to know which file is meant
+                        for shown, real in UNTRANSFORM.items():
+                            t = t.replace(shown, real)
                     if t.endswith(" (binary file)"):
                         t = t[:-len(" (binary file)")]     # a note delta appends to the displayed name
                     if t == "":
